@@ -111,7 +111,23 @@ def state_cases(payload):
       # restore into a state with the same structure but zeroed values
       z = nnx.State.from_flat_path({tuple(p): V.VariableState(nnx.Param, -1) for p, _ in c['states'][0]})
       nnx.replace_by_pure_dict(z, pd)
-      return {'pure': enc, 'restored': fl(z), 'equal': fl(z) == fl(ss[0])}
+      # a pure dict that names only some of the leaves replaces exactly those and leaves every other leaf in place
+      paths = sorted((tuple(p) for p, _ in c['states'][0]), key=lambda t: tuple(map(str, t)))
+      chosen = paths[::2]
+      part = {}
+      for kp in chosen:
+        cur = part
+        for k in kp[:-1]:
+          cur = cur.setdefault(k, {})
+        cur[kp[-1]] = 7000 + len(kp)
+      z2 = nnx.State.from_flat_path({tuple(p): V.VariableState(nnx.Param, -1) for p, _ in c['states'][0]})
+      partial_ok = None
+      if chosen and not any(kp[:len(q)] == q for kp in paths for q in paths if q != kp and len(q) < len(kp)):
+        nnx.replace_by_pure_dict(z2, part)
+        got = {tuple(p): (v.value if hasattr(v, 'value') else v) for p, v in nnx.to_flat_state(z2)}
+        want = {kp: (7000 + len(kp) if kp in chosen else -1) for kp in paths}
+        partial_ok = got == want
+      return {'pure': enc, 'restored': fl(z), 'equal': fl(z) == fl(ss[0]), 'partial_ok': partial_ok}
     o['pure'] = safe(pure)
     # split by path-set filters then merge
     if c.get('groups'):
